@@ -609,3 +609,19 @@ func (c *Chain) Resp(r Result, out gogoproto.Message) error {
 	}
 	return c.App.AppCodec().Unmarshal(sr.MsgResponses[0].Value, out)
 }
+
+// DoubleSign injects duplicate-vote evidence against validator i into the next block.
+func (c *Chain) DoubleSign(i int) {
+	var total int64
+	for _, v := range c.Vals {
+		total += v.Power
+	}
+	c.Misbehavior = append(c.Misbehavior, abci.Misbehavior{
+		Type:             abci.MisbehaviorType_DUPLICATE_VOTE,
+		Validator:        abci.Validator{Address: c.Vals[i].ConsAddr.Bytes(), Power: c.Vals[i].Power},
+		Height:           c.Height - 1,
+		Time:             c.Time,
+		TotalVotingPower: total,
+	})
+	c.Absent[i] = true
+}
